@@ -229,11 +229,64 @@ class _Resolver:
         return out
 
 
+def _skolemize_goal(goal):
+    """forall x. G(x)  ->  G(c) for fresh constants c (proving the instance for arbitrary c proves the goal)."""
+    consts = []
+    while z3.is_quantifier(goal) and goal.is_forall():
+        vs = [z3.FreshConst(goal.var_sort(i), "sk_" + goal.var_name(i).replace("!", "_")) for i in range(goal.num_vars())]
+        consts.extend(vs)
+        goal = z3.substitute_vars(goal.body(), *reversed(vs))
+    return goal, consts
+
+
+def _ground_terms(e, limit=14):
+    """Ground Int-sorted terms of interest in e: uninterpreted constants and applications of uninterpreted functions."""
+    out = {}
+    stack = [e]
+    seen = set()
+    while stack:
+        x = stack.pop()
+        if x.get_id() in seen:
+            continue
+        seen.add(x.get_id())
+        if z3.is_quantifier(x):
+            continue
+        if z3.is_app(x):
+            if (x.sort().eq(z3.IntSort()) and x.decl().kind() == z3.Z3_OP_UNINTERPRETED and not _has_free_var(x)
+                    and len(str(x)) < 160):
+                out[x.get_id()] = x
+            stack.extend(x.children())
+    return sorted(out.values(), key=lambda t: len(str(t)))[:limit]
+
+
+def _instantiate(hyps, terms, cap=400):
+    """Instances of universally quantified Int-variable hypotheses at the given ground terms."""
+    import itertools
+    inst = []
+    for h in hyps:
+        conj = h.children() if z3.is_and(h) else [h]
+        for q in conj:
+            if not (z3.is_quantifier(q) and q.is_forall()):
+                continue
+            n = q.num_vars()
+            if n > 2 or any(not q.var_sort(i).eq(z3.IntSort()) for i in range(n)):
+                continue
+            for tup in itertools.product(terms, repeat=n):
+                inst.append(z3.substitute_vars(q.body(), *reversed(tup)))
+                if len(inst) >= cap:
+                    return inst
+    return inst
+
+
 STRATEGIES = [
     # name, per-check timeout (ms), drop quantified hypotheses, mbqi
     ("qf", 2500, True, False),
+    ("ground", 6000, False, False),
     ("ematch", 8000, False, False),
     ("full", 10000, False, True),
+    # counter-model search: quantified hypotheses replaced by their ground instances; a model found this way is a
+    # *candidate* (it may violate a dropped quantified fact) and has to be validated by replay on the real code
+    ("cex", 6000, True, True),
 ]
 
 
@@ -251,8 +304,31 @@ def discharge(obl, specfuns, fuel=2, timeout_ms=10000, strategy=("full", 10000, 
         base = list(obl.hyps) + [neg]
         extra = unfold(base, specfuns, f)
         hyps = list(obl.hyps) + extra
+        allh = hyps
         if drop_q:
             hyps = [h for h in hyps if not _has_quantifier(h, memo)]
+        if sname == "cex":
+            g2, sk = _skolemize_goal(obl.goal)
+            neg = z3.Not(g2)
+            terms = sk + [t for t in _ground_terms(g2) if all(not t.eq(c) for c in sk)]
+            hyps = hyps + [i for i in _instantiate(allh, terms, cap=300) if not _has_quantifier(i, memo)]
+            if _has_quantifier(neg, memo):
+                hyps = None
+        if hyps is None:
+            break
+        if sname == "ground":
+            g2, sk = _skolemize_goal(obl.goal)
+            neg = z3.Not(g2)
+            terms = sk + [t for t in _ground_terms(g2) if all(not t.eq(c) for c in sk)]
+            inst = _instantiate(hyps, terms)
+            # second round: the instances mention new ground terms (e.g. ghost index of the skolem key)
+            more = []
+            for t in inst[:60]:
+                more.extend(_ground_terms(t, limit=6))
+            seen = {t.get_id() for t in terms}
+            more = [t for t in more if t.get_id() not in seen][:10]
+            inst += _instantiate(hyps, more, cap=200)
+            hyps = hyps + inst
         s = z3.Solver()
         s.set("timeout", tmo)
         if not mbqi:
@@ -263,6 +339,9 @@ def discharge(obl, specfuns, fuel=2, timeout_ms=10000, strategy=("full", 10000, 
         if r == z3.unsat:
             result.update(status="proved", backend="z3py-%s/%s" % (z3.get_version_string(), sname), fuel=f)
             break
+        if r == z3.sat and sname == "cex":
+            result.update(status="refuted", backend="z3py/cex", fuel=f, model=s.model(), candidate=True)
+            continue
         if r == z3.sat and not drop_q:
             # under bounded unfolding a sat answer may be an artefact; deeper fuel may still prove it
             result.update(status="refuted", backend="z3py/%s" % sname, fuel=f, model=s.model())
@@ -319,7 +398,13 @@ def discharge_all(obls, specfuns, fuel=2, timeout_ms=10000, progress=None, jobs=
         else:
             if r["status"] == "refuted" or prev is None:
                 out[i] = r
-            pending.append((i, k + 1))
+            nxt = k + 1
+            if strategies[nxt][0] == "cex" and out[i]["status"] == "refuted":
+                out[i]["ms"] = spent[i]
+                if progress:
+                    progress(obls[i], out[i])
+            else:
+                pending.append((i, nxt))
 
     while pending or running:
         while pending and len(running) < jobs:
